@@ -109,7 +109,7 @@ const COMMANDS: [&[&str]; 3] = [&["check"], &["generate"], &["check", "generate"
 const MODES: [(&str, &str); 3] = [("with-loader-ts-5.0", "d.graphql.ts"), ("with-loader-ts-4.0", "graphql.d.ts"), ("standalone-ts-4.0", "graphql.ts")];
 const FORMATS: [&str; 3] = ["json", "rdjson", "human"];
 
-fn gen_case(c: &mut Chooser, slots: usize) -> Case {
+fn gen_case(c: &mut Chooser, slots: usize, base_command: usize) -> Case {
     let mut faults = vec![];
     for _ in 0..slots {
         let k = c.choose("fault", FAULTS.len() + 1);
@@ -121,7 +121,7 @@ fn gen_case(c: &mut Chooser, slots: usize) -> Case {
     Case {
         faults,
         crlf: c.choose("line-endings", 3),
-        command: c.choose("command", 3),
+        command: (base_command + c.choose("command", 3)) % 3,
         discover: c.flag("config.discovered"),
         mode: c.choose("generate.mode", 3),
         resolvers: !c.flag("generate.no-resolvers"),
@@ -537,24 +537,33 @@ pub fn run(args: &RunArgs) -> i32 {
     let distinct = DistinctSet::new();
     let sample: Mutex<Option<J>> = Mutex::new(None);
     let (slots, dev, budget) = if args.quick() { (2, 2, 45) } else { (3, 3, 2400) };
-    let stats = explore(&ExploreCfg { max_dev: dev, threads: args.threads, budget: Duration::from_secs(budget) }, |c: &mut Chooser| {
-        let case = gen_case(c, slots);
-        if !distinct.insert(fnv(format!("{case:?}").as_bytes())) {
-            return;
-        }
-        check_case(&case, &rep, &ctr, c.picks(), &sample);
-    });
+    // two default command lines, so that "generate with faults" and "check only" are both within the bound
+    let mut per_base = serde_json::Map::new();
+    let mut edges = 0u64;
+    let mut all_complete = true;
+    for base_command in [0usize, 2] {
+        let stats = explore(&ExploreCfg { max_dev: dev, threads: args.threads, budget: Duration::from_secs(budget) }, |c: &mut Chooser| {
+            let case = gen_case(c, slots, base_command);
+            if !distinct.insert(fnv(format!("{case:?}").as_bytes())) {
+                return;
+            }
+            check_case(&case, &rep, &ctr, c.picks(), &sample);
+        });
+        edges += stats.choice_edges;
+        all_complete &= !stats.cap_hit;
+        per_base.insert(format!("default-command={}", COMMANDS[base_command].join(" ")), stats_json(&stats));
+    }
     cli::cleanup("c18");
     let cov = json!({
         "states": distinct.len() as u64,
-        "transitions": stats.choice_edges,
+        "transitions": edges,
         "traces_validated_against_impl": ctr.runs.load(Ordering::Relaxed),
         "evaluations": ctr.cases.load(Ordering::Relaxed),
         "distinct_nontrivial": ctr.cases.load(Ordering::Relaxed),
         "distinct_observed_outcomes": ctr.outcomes.len() as u64,
         "rule": "distinct by (fault set, line endings, command line, config discovery, generate options); every distinct project is materialised fresh and run through the nitrogql-cli binary once per output format",
-        "exhaustive": true,
-        "explorer": stats_json(&stats),
+        "exhaustive": all_complete,
+        "explorer": per_base,
         "cli_runs": ctr.runs.load(Ordering::Relaxed),
         "located_diagnostics_checked": ctr.located.load(Ordering::Relaxed),
         "fault_alphabet": FAULTS.iter().map(|f| f.id).collect::<Vec<_>>(),
